@@ -76,7 +76,17 @@ type PodCfg struct {
 	Late     bool   `json:"late"`     // not created with the node; bound later by a PodBinds step
 }
 
+// PermFault: a call that fails in every reconcile of the behaviour (a permanent error), from step From on.
+type PermFault struct {
+	Actor string `json:"actor"`
+	Verb  string `json:"verb"` // API verb, or "provDelete" / "provGet" for the provider
+	Kind  string `json:"kind"`
+	Sub   string `json:"sub"`
+	Err   string `json:"err"`
+}
+
 type Cfg struct {
+	Perm     []PermFault `json:"perm"`
 	LogReads bool     `json:"logReads"` // log get/list calls too (needed to judge mid-reconcile interleavings)
 	TGP      int      `json:"tgp"`      // NodeClaim spec.terminationGracePeriod in seconds, <0 = none
 	Instant  bool     `json:"instant"`  // provider Delete removes the instance at once
@@ -132,6 +142,7 @@ type sim struct {
 	views map[string]*corev1.Pod // informer copies handed to stale eviction-queue reconciles
 	ncView *v1.NodeClaim         // informer copy of the NodeClaim: refreshed by up-to-date reconciles, reused by stale ones
 	nView  *corev1.Node
+	permOn bool // the permanent faults of the scenario are in force (switched on by the PermOn step)
 }
 
 func (s *sim) restart() {
@@ -197,6 +208,23 @@ func (s *sim) plan(actor string, st Step) {
 		s.w.AddFault(world.Fault{Actor: actor, Verb: f.Verb, Kind: f.Kind, Sub: sub, Nth: f.Nth, Err: f.Err})
 	}
 	s.w.Prov.CreateOutcomes, s.w.Prov.DeleteOutcomes, s.w.Prov.GetOutcomes = nil, nil, nil
+	for _, f := range s.cfg.Perm {
+		if f.Actor != actor || !s.permOn {
+			continue
+		}
+		switch f.Verb {
+		case "provDelete":
+			s.w.Prov.DeleteOutcomes = []string{"err", "err", "err", "err"}
+		case "provGet":
+			s.w.Prov.GetOutcomes = []string{"err", "err", "err", "err"}
+		default:
+			sub := f.Sub
+			if sub == "-" {
+				sub = ""
+			}
+			s.w.AddFault(world.Fault{Actor: actor, Verb: f.Verb, Kind: f.Kind, Sub: sub, Nth: 0, Err: f.Err})
+		}
+	}
 	if st.ProvCreate != "" && st.ProvCreate != "ok" {
 		s.w.Prov.CreateOutcomes = []string{st.ProvCreate}
 	}
@@ -613,6 +641,8 @@ func (s *sim) step(st Step) error {
 			}
 		}
 		w.Emit(trace.M{"e": "Settled", "rounds": rounds, "claimGone": claimGone, "nodeGone": nodeGone, "instancesLeft": leaked})
+	case "PermOn":
+		s.permOn = true
 	case "Restart":
 		s.restart()
 		w.Emit(trace.M{"e": "Restart"})
